@@ -157,6 +157,21 @@ func Child(seed int64, tier, stateFile string, rounds int, saveMs int, compress 
 	}
 	defer finish()
 
+	// every few deliveries a snapshot save is started immediately before the node gets the block, so
+	// that the commit runs into a save that has only just been launched
+	s.BeforeNodeDeliver = func() {
+		switch r.Intn(6) {
+		case 0:
+			if s.N.Ch.Idle() {
+				run.Inc("saves_started_right_before_commit")
+			}
+		case 1:
+			if s.N.Ch.Idle() {
+				run.Inc("saves_started_right_before_commit")
+			}
+			s.N.Ch.Unspent.HurryUp()
+		}
+	}
 	offer := func(b *refchain.Block, fam string) (refchain.Result, bool) {
 		rr, _, ok := s.Offer(b, fam)
 		if ok {
